@@ -19,7 +19,7 @@ RULE = (
     "Three case kinds. 'fluid': a Fluid with generated temperature, API, gas gravity, GOR, salinity (all non-zero and "
     "pairwise different so that swapped or dropped arguments change the answer), a pseudocritical point and a "
     "pressure array (1..8 values around the bubble point); every method is compared with the stand-alone "
-    "correlation. 'table': build_pvt_gas for a generated composition (N2/H2S/CO2 0..0.15, gravity 0.55..1.2, "
+    "correlation; in half of the cases the object's fields are then reassigned and every method is compared again.  'table': build_pvt_gas for a generated composition (N2/H2S/CO2 0..0.15, gravity 0.55..1.2, "
     "80..400 F, both dryness settings) and maximum pressure 25..3000 psia in quick, ..14000 in thorough (multiples of "
     "10 and not); every row is recomputed with the stand-alone correlations. 'sutton': reductions of the "
     "pseudocritical point (no contaminants, zero-fraction extra component, unknown dryness). Non-trivial = a "
@@ -50,6 +50,9 @@ def fluid_case(draw):
         "ppc": draw(st.floats(550.0, 800.0)),
         "fracs": [draw(st.floats(0.0, 1.0)) for _ in range(n)],
         "as_list": draw(st.booleans()),
+        # the dataclass is mutable: after the first evaluation its fields are reassigned to these values
+        "oil2": draw(st.one_of(st.none(), gens.oil_params())),
+        "salinity2": draw(st.floats(0.5, 25.0)),
     }
 
 
@@ -142,6 +145,29 @@ def check_case(case) -> Result:
         for name, call, want in pairs:
             got = lib(f"Fluid.{name}", call)
             _close(res, "C19/fluid-delegation", got, want, 1e-13, f"Fluid({T!r},{api!r},{sg!r},{gor!r},salinity={sal!r}).{name} on {list(ps)} (tpc={tpc!r}, ppc={ppc!r})")
+        if case.get("oil2") and not res.violations:
+            # reassign the object's fields (after every method has been evaluated once) and compare again
+            o2 = case["oil2"]
+            T2, api2, sg2, gor2, sal2 = o2["T"], o2["api"], o2["sg"], o2["gor"], case["salinity2"]
+            fl.temperature, fl.api_gravity, fl.gas_specific_gravity, fl.solution_gor_initial, fl.salinity = T2, api2, sg2, gor2, sal2
+            pb2 = float(lib("pressure_bubblepoint_Standing", O.pressure_bubblepoint_Standing, T2, api2, sg2, gor2))
+            _close(res, "C19/fluid-follows-reassigned-fields", float(lib("Fluid.pressure_bubblepoint", fl.pressure_bubblepoint)), pb2, 1e-13, "pressure_bubblepoint after the fields were reassigned")
+            if pb2 > 50 and np.isfinite(pb2):
+                again = [
+                    ("water_FVF", lambda: fl.water_FVF(arr), [W.b_water_McCain(T2, q) for q in ps]),
+                    ("water_viscosity", lambda: fl.water_viscosity(arr_np), [W.viscosity_water_McCain(T2, q, sal2) for q in ps]),
+                    ("gas_FVF", lambda: fl.gas_FVF(arr, tpc, ppc), [G.b_factor_DAK(T2, q, tpc, ppc) for q in ps]),
+                    ("gas_viscosity", lambda: fl.gas_viscosity(arr, tpc, ppc), [G.viscosity_Sutton(T2, q, tpc, ppc, sg2) for q in ps]),
+                    ("oil_FVF", lambda: fl.oil_FVF(arr_np), [O.b_o_Standing(T2, q, api2, sg2, gor2) for q in ps]),
+                    ("oil_viscosity", lambda: fl.oil_viscosity(arr), [O.viscosity_beggs_robinson(T2, q, api2, sg2, gor2) for q in ps]),
+                ]
+                tr2 = (T2 + 459.67) / (tpc + 459.67)
+                for name, call, want in again:
+                    if name.startswith("gas") and not (1.05 <= tr2 <= 3.0):
+                        continue
+                    got = lib(f"Fluid.{name} (after reassignment)", call)
+                    _close(res, "C19/fluid-follows-reassigned-fields", got, want, 1e-13, f"Fluid.{name} after its fields were reassigned to T={T2!r}, api={api2!r}, sg={sg2!r}, gor={gor2!r}, salinity={sal2!r} (first evaluated with gor={gor!r})")
+            res.labels["reassigned"] = True
         res.nontrivial = len(ps) >= 2
         res.labels["n_pressures"] = min(len(ps), 4)
         return res
